@@ -30,6 +30,7 @@ CONSTANTS
   SubTargets = {"A", "B", "C"}
   AutoVals = {TRUE, FALSE}
   SubOneshot = {FALSE}
+  UdVals = {0}
   Senders = {"A", "B", "C"}
   QuitCodes = {0, 1}
   ForeignOps = {}
